@@ -166,9 +166,6 @@ def main(tier):
                           "command_line": line, "c": o, "model": exp_f, "standard": std}
                 if got != exp_f:
                     # model (faithful) and code differ: is the property itself violated at this input?
-                    if s == "uper" and (ref_to_choice(m, c["tn"]) or uses_choice_ref(m, dict(m["defs"])[c["tn"]])) and got == "ENCFAIL":
-                        run.known_finding("C02-choice-ref-no-per", line)
-                        continue
                     bad = (got != "OK " + std)
                     run.violation("correspondence:Rt.%s" % s, dict(replay, what="C encoder output differs from the model" + (" and from the standard" if bad else "")),
                                   no_input=not bad)
